@@ -309,6 +309,11 @@ impl World for W4 {
             if hostile && rng.chance(1, 4) {
                 resp_headers.push((HexStr::new(b"X-\xffBad"), HexStr::new(b"v\xc3")));
             }
+            // a response that says it is compressed and is not: the body filter gives up on some chunk and the following
+            // chunks go through its pass-through state (their buffers are still the library's to release)
+            if rng.chance(1, 8) {
+                resp_headers.push((HexStr::s(&rng.pick_str(&["Content-Encoding", "content-encoding"])), HexStr::s(&rng.pick_str(&["gzip", "deflate", "br"]))));
+            }
             let mut null_at = Vec::new();
             for s in 0..16 {
                 if rng.chance(1, 20) {
